@@ -264,6 +264,12 @@ class Gen(object):
             d = t.weighted([3, 1, 1])
             if self.cfg.__dict__.get("park") and t.choose(2) == 0:
                 # thread worlds: park in a C call made directly from this frame
+                if self.on("raise") and not self.cfg.no_handlers and t.choose(5) == 4:
+                    # ... or in a helper that raises once it is released: the calling frame then
+                    # handles the exception, or finishes, without its f_lasti having moved
+                    self.emit(fn, ind, "W.park_raise(F, %d)" % pid)
+                    self.prog.points[pid] = {"kind": "park", "fname": fn.name}
+                    return
                 self.emit(fn, ind, "W.rel(); W.acq()")
                 self.prog.points[pid] = {"kind": "park", "fname": fn.name}
                 return
